@@ -1,6 +1,7 @@
 """client.py entity command methods (Python ast, closed grammar, fail-closed) -> coq/Generated/GenCommands.v: a small
 loop-free command IR per method, plus the field lists (with has_* flags) of the request messages from the descriptors."""
 import ast
+import re
 
 from .util import PKG, TranslationError, coq_Z, coq_list, coq_string, write
 
@@ -112,9 +113,15 @@ def translate_method(fn):
     params = [a.arg for a in args.args[1:] + args.kwonlyargs]
     body = [n for n in fn.body if not (isinstance(n, ast.Expr) and isinstance(n.value, ast.Constant))]
     msg, init, rest, msgvar, sent = None, [], [], None, False
+    connvar = None
     for i, n in enumerate(body):
         src = ast.unparse(n)
-        if src == "connection = self._get_connection()" or src in [f"{a} = self.api_version" for a in APIV_NAMES]:
+        m_acc = re.fullmatch(r"(\w+) = self\.(_\w+)\(\)", src)
+        if m_acc and connvar is None and m_acc.group(2) in ACCESSORS:
+            # the client's private accessor of the live connection, whatever it is called
+            connvar = m_acc.group(1)
+            continue
+        if src in [f"{a} = self.api_version" for a in APIV_NAMES]:
             continue
         if isinstance(n, ast.If) and isinstance(n.test, ast.Name) and n.test.id == "TYPE_CHECKING":
             continue
@@ -125,7 +132,9 @@ def translate_method(fn):
             msgvar = n.targets[0].id
             msg, init = ctor(n.value, params)
             continue
-        if isinstance(n, ast.Expr) and isinstance(n.value, ast.Call) and ast.unparse(n.value.func) in ("connection.send_message", "self._get_connection().send_message"):
+        if isinstance(n, ast.Expr) and isinstance(n.value, ast.Call) and (
+                ast.unparse(n.value.func) == f"{connvar}.send_message"
+                or any(ast.unparse(n.value.func) == f"self.{a}().send_message" for a in ACCESSORS)):
             if i != len(body) - 1 or len(n.value.args) != 1 or n.value.keywords:
                 err(n, "send_message is not the last statement / unexpected arguments")
             a = n.value.args[0]
@@ -150,6 +159,23 @@ def translate_method(fn):
         if d is not None and isinstance(d, ast.Constant) and d.value is None:
             optional.append(p)
     return Cmd(fn.name, params, msg, init, rest), optional
+
+
+ACCESSORS: set = set()
+
+
+def find_accessors(cls):
+    """Private methods of APIClient without parameters whose every `return` hands out one and the same attribute of self
+    (the checked accessor of the live connection)."""
+    out = set()
+    for n in cls.body:
+        if isinstance(n, ast.FunctionDef) and n.name.startswith("_") and len(n.args.args) == 1 and not n.args.kwonlyargs:
+            rets = [r.value for r in ast.walk(n) if isinstance(r, ast.Return)]
+            local = {t.id: ast.unparse(a.value) for a in ast.walk(n) if isinstance(a, ast.Assign) for t in a.targets if isinstance(t, ast.Name)}
+            vals = {local.get(r.id, r.id) if isinstance(r, ast.Name) else ast.unparse(r) for r in rets if r is not None}
+            if rets and len(vals) == 1 and re.fullmatch(r"self\._\w+", next(iter(vals))):
+                out.add(n.name)
+    return out
 
 
 def simple_const(val):
@@ -192,6 +218,8 @@ def extract():
     tree = ast.parse((PKG / "client.py").read_text())
     cls = next(n for n in tree.body if isinstance(n, ast.ClassDef) and n.name == "APIClient")
     consts = module_simple_consts(tree)
+    ACCESSORS.clear()
+    ACCESSORS.update(find_accessors(cls))
     methods = {}
     for n in cls.body:
         if isinstance(n, ast.FunctionDef):
